@@ -27,26 +27,26 @@ theorem TrOK.poll {PS PD : Cmd → Prop} {x : XState} (h : TrOK PS PD x) (e : Op
 theorem TrOK.withLog {PS PD : Cmd → Prop} {x : XState} (h : TrOK PS PD x) (l : List String) : TrOK PS PD { x with log := l } := h
 
 /-- what the two sides may be sent, depending on `dryRun` -/
-structure Allowed (dry : Bool) (PS PD : Cmd → Prop) : Prop where
+structure Allowed (dry : Bool) (PS PD : Cmd → Prop) (F : List FilterSpec → Prop) : Prop where
   sSetRoot : ∀ r, PS (.setRoot r)
-  sGetEntries : ∀ f, PS (.getEntries f)
+  sGetEntries : ∀ f, F f → PS (.getEntries f)
   sGetFile : dry = false → ∀ p, PS (.getFileContent p)
   dSetRoot : ∀ r, PD (.setRoot r)
-  dGetEntries : ∀ f, PD (.getEntries f)
+  dGetEntries : ∀ f, F f → PD (.getEntries f)
   dMarker : ∀ ph, PD (.marker ph)
   dMutating : dry = false → ∀ c, c.mutating = true → PD c
 
 theorem deleteCmd_mutating (p : String) (d : Details) : (deleteCmd p d).mutating = true := by
   cases d <;> rfl
 
-theorem delStepState_ok {PS PD : Cmd → Prop} (c : Ctx) (A : Allowed c.dryRun PS PD) (x : XState) (p : String) (d : Details)
+theorem delStepState_ok {PS PD : Cmd → Prop} {F : List FilterSpec → Prop} (c : Ctx) (A : Allowed c.dryRun PS PD F) (x : XState) (p : String) (d : Details)
     (h : TrOK PS PD x) : TrOK PS PD (delStepState c x p d) := by
   unfold delStepState
   cases hd : c.dryRun with
   | true => exact h.info _
   | false => exact h.sendDest _ (A.dMutating hd _ (deleteCmd_mutating p d))
 
-theorem deleteLoop_ok {PS PD : Cmd → Prop} (c : Ctx) (A : Allowed c.dryRun PS PD) (errAt : Option Nat)
+theorem deleteLoop_ok {PS PD : Cmd → Prop} {F : List FilterSpec → Prop} (c : Ctx) (A : Allowed c.dryRun PS PD F) (errAt : Option Nat)
     (l : List (String × (Details × DelReason))) (x : XState) (st : Stats) (h : TrOK PS PD x) :
     TrOK PS PD (deleteLoop c errAt l x st).2.1 := by
   induction l generalizing x st with
@@ -59,7 +59,7 @@ theorem deleteLoop_ok {PS PD : Cmd → Prop} (c : Ctx) (A : Allowed c.dryRun PS 
     · simp only [hp, ↓reduceIte]; exact hx
     · simp only [hp, Bool.false_eq_true, ↓reduceIte]; exact ih _ _ hx
 
-theorem chunkLoop_ok {PS PD : Cmd → Prop} (A : Allowed false PS PD) (errAt : Option Nat) (p : String) (size : Nat) (mtime : Int)
+theorem chunkLoop_ok {PS PD : Cmd → Prop} {F : List FilterSpec → Prop} (A : Allowed false PS PD F) (errAt : Option Nat) (p : String) (size : Nat) (mtime : Int)
     (s : FileScript) (x : XState) (off : Nat) (h : TrOK PS PD x) :
     TrOK PS PD (chunkLoop errAt p size mtime s x off).2.1 := by
   induction s generalizing x off with
@@ -78,7 +78,7 @@ theorem chunkLoop_ok {PS PD : Cmd → Prop} (A : Allowed false PS PD) (errAt : O
         | true => simp only [↓reduceIte]; exact ih _ _ hx
         | false => simp only [Bool.false_eq_true, ↓reduceIte]; exact hx
 
-theorem copyFileReal_ok {PS PD : Cmd → Prop} (A : Allowed false PS PD) (errAt : Option Nat) (files : List (String × FileScript))
+theorem copyFileReal_ok {PS PD : Cmd → Prop} {F : List FilterSpec → Prop} (A : Allowed false PS PD F) (errAt : Option Nat) (files : List (String × FileScript))
     (p : String) (mtime : Int) (size : Nat) (x : XState) (st : Stats) (h : TrOK PS PD x) :
     TrOK PS PD (copyFileReal errAt files p mtime size x st).2.1 := by
   have hx := chunkLoop_ok A errAt p size mtime (fileScript files p) (x.sendSrc (.getFileContent p)) 0
@@ -94,14 +94,14 @@ theorem copyFileReal_ok {PS PD : Cmd → Prop} (A : Allowed false PS PD) (errAt 
     · simp only [ho, ne_eq, not_true_eq_false, ↓reduceIte]; exact hx
     · simp only [ne_eq, ho, not_false_eq_true, ↓reduceIte]; exact hx
 
-theorem copyOne_ok {PS PD : Cmd → Prop} (c : Ctx) (A : Allowed c.dryRun PS PD) (errAt : Option Nat) (files : List (String × FileScript))
+theorem copyOne_ok {PS PD : Cmd → Prop} {F : List FilterSpec → Prop} (c : Ctx) (A : Allowed c.dryRun PS PD F) (errAt : Option Nat) (files : List (String × FileScript))
     (p : String) (d : Details) (x : XState) (st : Stats) (h : TrOK PS PD x) :
     TrOK PS PD (copyOne c errAt files p d x st).2.1 := by
   cases hd : c.dryRun with
   | true =>
     cases d <;> simp only [copyOne, hd, ↓reduceIte] <;> exact h.info _
   | false =>
-    have A' : Allowed false PS PD := hd ▸ A
+    have A' : Allowed false PS PD F := hd ▸ A
     cases d with
     | file mtime size =>
       simp only [copyOne, hd, Bool.false_eq_true, ↓reduceIte]
@@ -113,7 +113,7 @@ theorem copyOne_ok {PS PD : Cmd → Prop} (c : Ctx) (A : Allowed c.dryRun PS PD)
       simp only [copyOne, hd, Bool.false_eq_true, ↓reduceIte]
       exact h.sendDest _ (A'.dMutating rfl _ rfl)
 
-theorem copyLoop_ok {PS PD : Cmd → Prop} (c : Ctx) (A : Allowed c.dryRun PS PD) (errAt : Option Nat) (files : List (String × FileScript))
+theorem copyLoop_ok {PS PD : Cmd → Prop} {F : List FilterSpec → Prop} (c : Ctx) (A : Allowed c.dryRun PS PD F) (errAt : Option Nat) (files : List (String × FileScript))
     (l : List (String × (Details × CopyReason))) (x : XState) (st : Stats) (h : TrOK PS PD x) :
     TrOK PS PD (copyLoop c errAt files l x st).2.1 := by
   induction l generalizing x st with
@@ -141,7 +141,7 @@ def ResOK (PS PD : Cmd → Prop) (r : RunResult) : Prop := (∀ c ∈ r.srcTrace
 
 theorem mkResult_ok {PS PD : Cmd → Prop} {x : XState} (h : TrOK PS PD x) (o : Outcome) (c : Conf) : ResOK PS PD (mkResult o x c) := h
 
-theorem execPhase_ok {PS PD : Cmd → Prop} (sc : Scenario) (ctx : Ctx) (A : Allowed ctx.dryRun PS PD) (x : XState) (conf : Conf)
+theorem execPhase_ok {PS PD : Cmd → Prop} {F : List FilterSpec → Prop} (sc : Scenario) (ctx : Ctx) (A : Allowed ctx.dryRun PS PD F) (x : XState) (conf : Conf)
     (del : OMap (Details × DelReason)) (cpy : OMap (Details × CopyReason)) (h : TrOK PS PD x) :
     ResOK PS PD (execPhase sc ctx x conf del cpy) := by
   unfold execPhase
@@ -168,7 +168,7 @@ theorem execPhase_ok {PS PD : Cmd → Prop} (sc : Scenario) (ctx : Ctx) (A : All
       | some _ => exact mkResult_ok h3 _ _
       | none => exact mkResult_ok (h3.withLog _) _ _
 
-theorem queryPhase_ok {PS PD : Cmd → Prop} (sc : Scenario) (fs : List FilterSpec) (ctx : Ctx) (A : Allowed ctx.dryRun PS PD)
+theorem queryPhase_ok {PS PD : Cmd → Prop} {F : List FilterSpec → Prop} (sc : Scenario) (fs : List FilterSpec) (ctx : Ctx) (A : Allowed ctx.dryRun PS PD F) (hF : F fs)
     (x : XState) (conf : Conf) (pc : PCfg) (srcD : Details) (destD : Option Details) (h : TrOK PS PD x) :
     ResOK PS PD (queryPhase sc fs ctx x conf pc srcD destD) := by
   unfold queryPhase
@@ -180,12 +180,12 @@ theorem queryPhase_ok {PS PD : Cmd → Prop} (sc : Scenario) (fs : List FilterSp
     have hx1 : TrOK PS PD (if srcAsked = true then x.sendSrc (.getEntries fs) else x) := by
       cases srcAsked
       · simpa using h
-      · simpa using h.sendSrc _ (A.sGetEntries fs)
+      · simpa using h.sendSrc _ (A.sGetEntries fs hF)
     generalize (if srcAsked = true then x.sendSrc (.getEntries fs) else x) = x1 at hx1
     have hx2 : TrOK PS PD (if destAsked = true then x1.sendDest (.getEntries fs) else x1) := by
       cases destAsked
       · simpa using hx1
-      · simpa using hx1.sendDest _ (A.dGetEntries fs)
+      · simpa using hx1.sendDest _ (A.dGetEntries fs hF)
     generalize (if destAsked = true then x1.sendDest (.getEntries fs) else x1) = x2 at hx2
     by_cases hq : (sc.errInQuery && (destD.isNone && !ctx.dryRun) && (srcAsked || destAsked)) = true
     · simp only [hq, ↓reduceIte]; exact mkResult_ok hx2 _ _
@@ -203,8 +203,8 @@ theorem queryPhase_ok {PS PD : Cmd → Prop} (sc : Scenario) (fs : List FilterSp
         | some e => exact mkResult_ok hx2 _ _
         | none => exact execPhase_ok sc ctx A x2 conf' del' cpy' hx2
 
-theorem runFromRoots_ok {PS PD : Cmd → Prop} (w : Wrap) (sc : Scenario) (fs : List FilterSpec) (ctx : Ctx)
-    (A : Allowed ctx.dryRun PS PD) (hA : ctx.dryRun = false → PD .createRootAncestors)
+theorem runFromRoots_ok {PS PD : Cmd → Prop} {F : List FilterSpec → Prop} (w : Wrap) (sc : Scenario) (fs : List FilterSpec) (ctx : Ctx)
+    (A : Allowed ctx.dryRun PS PD F) (hF : F fs) (hA : ctx.dryRun = false → PD .createRootAncestors)
     (x : XState) (srcD : Details) (destD : Option Details) (destDiff : Bool) (h : TrOK PS PD x) :
     ResOK PS PD (runFromRoots w sc fs ctx x srcD destD destDiff) := by
   unfold runFromRoots
@@ -218,7 +218,7 @@ theorem runFromRoots_ok {PS PD : Cmd → Prop} (w : Wrap) (sc : Scenario) (fs : 
     | false => exact mkResult_ok h _ _
     | true =>
       simp only
-      apply queryPhase_ok sc fs ctx A
+      apply queryPhase_ok sc fs ctx A hF
       by_cases ha : (destD.isNone && !ctx.dryRun) = true
       · simp only [ha, ↓reduceIte]
         have hd : ctx.dryRun = false := by
@@ -231,16 +231,18 @@ unexpected variants, any arrival order, any prompt answers, any moment at which 
 becomes visible): the source is sent only `SetRoot`, `GetEntries` and — unless it is a dry run —
 `GetFileContent`; the destination is sent only `SetRoot`, `GetEntries`, markers and — unless it is a
 dry run — mutating commands. -/
-theorem run_ok {PS PD : Cmd → Prop} (w : Wrap) (sc : Scenario) (A : Allowed sc.dryRun PS PD) :
+theorem run_ok {PS PD : Cmd → Prop} (w : Wrap) (sc : Scenario)
+    (A : Allowed sc.dryRun PS PD (fun f => compileFilters w.pre w.post sc.filters = some f)) :
     ResOK PS PD (run w sc) := by
   have hA : sc.dryRun = false → PD .createRootAncestors := fun hd => A.dMutating hd _ rfl
   have h0 : TrOK PS PD ⟨[], [], [], 0⟩ := ⟨fun c hc => by simp at hc, fun c hc => by simp at hc⟩
   unfold run
   simp only
-  cases compileFilters w.pre w.post sc.filters with
+  cases hcf : compileFilters w.pre w.post sc.filters with
   | none => exact mkResult_ok h0 _ _
   | some fs =>
     simp only
+    have hF : (fun f => compileFilters w.pre w.post sc.filters = some f) fs := hcf
     have h1 := h0.sendSrc (.setRoot sc.srcRoot) (A.sSetRoot _)
     cases sc.srcReply with
     | other => exact mkResult_ok h1 _ _
@@ -275,8 +277,8 @@ theorem run_ok {PS PD : Cmd → Prop} (w : Wrap) (sc : Scenario) (A : Allowed sc
                     cases sc.destReply2 with
                     | other => exact mkResult_ok h3 _ _
                     | details destD2 _ _ =>
-                      exact runFromRoots_ok w sc fs ⟨sc.srcRoot, _, srcSep, destSep, sc.dryRun⟩ A hA _ srcD destD2 destDiff h3
+                      exact runFromRoots_ok w sc fs ⟨sc.srcRoot, _, srcSep, destSep, sc.dryRun⟩ A hF hA _ srcD destD2 destDiff h3
                   · simp only [hs, Bool.false_eq_true, ↓reduceIte]
-                    exact runFromRoots_ok w sc fs ⟨sc.srcRoot, sc.destRoot, srcSep, destSep, sc.dryRun⟩ A hA _ srcD destD destDiff h2
+                    exact runFromRoots_ok w sc fs ⟨sc.srcRoot, sc.destRoot, srcSep, destSep, sc.dryRun⟩ A hF hA _ srcD destD destDiff h2
 
 end Rj
